@@ -68,6 +68,47 @@ func (g *gen) makeGlobals() {
 		g.globals = append(g.globals, v)
 		sc.add(v)
 	}
+	if r.Intn(2) == 0 {
+		// a variable initialised through functions, possibly recursive, that
+		// read other package-level variables: these must be initialised
+		// first, whatever the textual order, and recursion is not a loop
+		g.feat("global-init-through-func")
+		var ints []*variable
+		for _, v := range g.globals {
+			if v.t == TInt && !v.isConst {
+				ints = append(ints, v)
+			}
+		}
+		base := &variable{name: g.newID("g"), t: TInt}
+		g.decls = append(g.decls, fmt.Sprintf("var %s %s = %s(%q, %d)", base.name, "int", g.helperTr(TInt), base.name, 3+r.Intn(50)))
+		g.globals = append(g.globals, base)
+		sc.add(base)
+		read := base.name
+		if len(ints) > 0 && r.Intn(2) == 0 {
+			read += " + " + pick(r, ints).name
+		}
+		f1, f2 := g.newID("initf"), g.newID("inith")
+		switch r.Intn(3) {
+		case 0: // plain chain
+			g.decls = append(g.decls, fmt.Sprintf("func %s(n int) int {\n\treturn %s(n) + 1\n}", f1, f2))
+			g.decls = append(g.decls, fmt.Sprintf("func %s(n int) int {\n\treturn %s + n\n}", f2, read))
+		case 1: // self recursion
+			g.decls = append(g.decls, fmt.Sprintf("func %s(n int) int {\n\tif n <= 0 {\n\t\treturn %s\n\t}\n\treturn %s(n-1) + n\n}", f1, read, f1))
+			g.feat("global-init-recursive-func")
+		default: // mutual recursion
+			g.decls = append(g.decls, fmt.Sprintf("func %s(n int) int {\n\tif n <= 0 {\n\t\treturn %s\n\t}\n\treturn %s(n - 1)\n}", f1, read, f2))
+			g.decls = append(g.decls, fmt.Sprintf("func %s(n int) int {\n\treturn %s(n) + 1\n}", f2, f1))
+			g.feat("global-init-recursive-func")
+		}
+		v := &variable{name: g.newID("g"), t: TInt}
+		if r.Intn(2) == 0 {
+			g.decls = append(g.decls, fmt.Sprintf("var %s = %s(%d)", v.name, f1, r.Intn(4)))
+		} else {
+			g.decls = append(g.decls, fmt.Sprintf("var %s = func() int {\n\treturn %s(%d)\n}()", v.name, f1, r.Intn(4)))
+		}
+		g.globals = append(g.globals, v)
+		sc.add(v)
+	}
 	if r.Intn(3) == 0 {
 		// an init function that changes a global
 		var as []*variable
